@@ -26,8 +26,8 @@ SPEC = {
         "design_ref": "DESIGN.md section 6 C16"},
     "streams": ["paths"],
     "witnesses": ["F3"],
-    "rule": ("deterministic matrix (6 fixed schemas x {empty command line, two generated command lines, hand-made namespace} "
-             "+ 3 sub-schemas handed in directly) then seeded random schemas of depth <= 4 (identifier keys, collision-free "
+    "rule": ("deterministic matrix (8 fixed schemas, two of them with keys whose option string has adjacent / trailing dashes: a_, b__c, class_.enabled, dry__run, x {empty command line, two generated command lines, hand-made namespace} "
+             "+ 3 sub-schemas handed in directly) then seeded random schemas of depth <= 4 (identifier keys incl. trailing/double underscores, collision-free "
              "after the '.'/'_' -> '-' mapping; str/int/float/bool/any/list/dict/bytes/virtual/method leaves, nested "
              "schemas, config types; 10% keyed roots and 10% sub-schemas handed in directly for F40), each with missing / "
              "trailing-dot / inside-config-type lookups, a random prior history assigned both by item and by attribute, a "
